@@ -222,7 +222,9 @@ def rw_guard_to_if(text, log):
             done += 1
         log.append('R11 %d guarded arm(s) `P if G => E` -> `P => if G { E } else { %s }`' % (len([a for a in arms if a[1] is not None]), lit[0][1]))
         return _replace_spans(text, spans)
-    raise AnchorLost('R11: no match with guards found')
+    # no guarded match in this body (the source spells the table without guards): nothing to rewrite
+    log.append('R11 no match with guards in this body: nothing to rewrite')
+    return text
 
 
 def rw_for_continue(text, log):
@@ -863,6 +865,99 @@ def stmt_bounds(st, i, j, lo, hi):
     return a, b
 
 
+def _hoist_invariants(fs, st, log):
+    fo = next(i for i, t in enumerate(st) if t[1] == '{')
+    fc = rtok.match_close(st, fo)
+    sig = st[:fo]
+    roots = set()
+    # immutable roots: `&self` / `self`, parameters that are neither `mut` nor `&mut`
+    for i, t in enumerate(sig):
+        if t[1] == 'self' and not (i >= 1 and sig[i - 1][1] == 'mut'):
+            roots.add('self')
+        if t[0] == 'ident' and i + 1 < len(sig) and sig[i + 1][1] == ':' and sig[i - 1][1] in ('(', ','):
+            j = i + 2
+            if not (sig[j][1] == '&' and sig[j + 1][1] == 'mut'):
+                roots.add(t[1])
+    loops = find_loops(st, fo + 1, fc)
+    added = 0
+    i = fo + 1
+    while i < fc:
+        if st[i][1] == 'let' and st[i + 1][0] == 'ident' and st[i + 1][1] != 'mut' and st[i - 1][1] in (';', '{', '}'):
+            name = st[i + 1][1]
+            j = i + 2
+            if st[j][1] == ':':          # skip a type annotation
+                while j < fc and st[j][1] not in ('=', ';'):
+                    j += 1
+            if st[j][1] == '=':
+                k = j + 1
+                expr = []
+                ok = True
+                while k < fc and st[k][1] != ';':
+                    t = st[k]
+                    if t[1] == 'as' or not (t[0] in ('ident', 'int', 'number', 'lit') or t[1] in ('.', 'self')):
+                        ok = False
+                        break
+                    expr.append(t)
+                    k += 1
+                # an optional trailing `as TYPE`
+                cast = ''
+                if not ok and k < fc and st[k][1] == 'as' and st[k + 1][0] == 'ident' and st[k + 2][1] == ';' and expr:
+                    cast = ' as ' + st[k + 1][1]
+                    k = k + 2
+                    ok = True
+                root = expr[0][1] if expr else None
+                mutable_root = ok and expr and root not in roots and expr[0][0] == 'ident' and root not in ('mut',)
+
+                def untouched(a, b):
+                    # tokens a..b neither assign to the root (or a field path of it) nor borrow it mutably nor pass it on by `&mut`
+                    m = a
+                    while m < b:
+                        if st[m][1] == root and st[m - 1][1] != '.':
+                            if st[m - 1][1] == 'mut' and st[m - 2][1] == '&':
+                                return False
+                            n2 = m + 1
+                            while st[n2][1] == '.' and st[n2 + 1][0] == 'ident':
+                                n2 += 2
+                            if st[n2][1] in ('=', '+=', '-=', '*=', '/=', '%=', '|=', '&=', '^=', '<<=', '>>=') or (st[n2][1] == '.' ):
+                                return False
+                            if st[n2][1] == '(':      # root.method(..): may mutate through &mut self
+                                return False
+                        m += 1
+                    return True
+                if ok and expr and (root in roots or mutable_root) and all(e[1] not in ('mut', 'as') for e in expr) \
+                        and not any(st[m][1] == '(' for m in range(j + 1, k)):
+                    # the block the `let` lives in
+                    depth = 0
+                    b = i
+                    while b > fo:
+                        b -= 1
+                        if st[b][1] == '}':
+                            depth += 1
+                        elif st[b][1] == '{':
+                            if depth == 0:
+                                break
+                            depth -= 1
+                    bclose = rtok.match_close(st, b)
+                    text = ''.join(x[1] for x in expr) + cast
+                    # not re-bound later in the same block (shadowing would make the clause talk about another variable)
+                    shadow = any(st[m][1] == 'let' and st[m + 1][1] in (name, 'mut') and st[m + 2 if st[m + 1][1] == 'mut' else m + 1][1] == name
+                                 for m in range(k, bclose))
+                    if not shadow:
+                        for n, (kw, lo, lc) in enumerate(loops, 1):
+                            if k < kw < bclose:
+                                if mutable_root and not untouched(k, lc):
+                                    continue
+                                lp = fs.loops.setdefault(n, specmod.Loop(n))
+                                lp.invariants = list(lp.invariants) + [specmod.Clause(list(fs.safety), '%s == %s' % (name, text), 'invariant', 'auto-hoist-loop')]
+                                added += 1
+                        if not mutable_root:
+                            roots.add(name)
+                i = k
+        i += 1
+    if added:
+        log.append('auto-hoist: %d loop invariant(s) `local == place expression` for locals bound before a loop' % added)
+
+
 driver_fn_shape = None   # set by driver (avoids a circular import)
 KNOWN_FN_NAMES = set()   # names of every function under contract and of every `fn` of the prelude (filled by driver.assemble)
 
@@ -1012,12 +1107,11 @@ def rw_inline_helpers(text, src, log, depth=0, scope=None):
         if followed_q and is_result:
             # the body must end in `Ok(v)`: the block's value is `v`
             bst = hst[hb_open + 1:hb_close]
-            if len(bst) < 4 or bst[-1][1] != ')':
-                continue
+            tail_ok = len(bst) >= 4 and bst[-1][1] == ')'
             # find the `Ok` that opens the tail expression
             k = len(bst) - 1
             dd = 0
-            while k >= 0:
+            while tail_ok and k >= 0:
                 if bst[k][1] in (')', ']', '}'):
                     dd += 1
                 elif bst[k][1] in ('(', '[', '{'):
@@ -1025,15 +1119,20 @@ def rw_inline_helpers(text, src, log, depth=0, scope=None):
                     if dd == 0:
                         break
                 k -= 1
-            if k < 1 or bst[k - 1][1] != 'Ok' or (k >= 2 and bst[k - 2][1] not in (';', '}', '{')):
-                continue
-            stmts = h['text'][hst[hb_open][3]:bst[k - 1][2]]
-            val = h['text'][bst[k][3]:bst[-1][2]]
-            if subst:
-                stmts = pat_re.sub(lambda m: subst[m.group(1)], stmts)
-                val = pat_re.sub(lambda m: subst[m.group(1)], val)
-            repl = '{ ' + bind + stmts + ' ' + (val if val.strip() else '()') + ' }'
-            end = st[cc + 1][3]
+            if not tail_ok or k < 1 or bst[k - 1][1] != 'Ok' or (k >= 2 and bst[k - 2][1] not in (';', '}', '{')):
+                # the tail is some other expression of the Result type (a `match` whose arms are `Ok(..)`, a call): the block keeps it and the
+                # call's own `?` stays behind the block.  A `?` inside then leaves the caller directly instead of leaving the helper first:
+                # the same error value either way, since helper and caller return the same Result alias
+                repl = '{ ' + bind + 'let r__h: ' + ret + ' = {' + body + '}; r__h }'
+                end = st[cc][3]
+            else:
+                stmts = h['text'][hst[hb_open][3]:bst[k - 1][2]]
+                val = h['text'][bst[k][3]:bst[-1][2]]
+                if subst:
+                    stmts = pat_re.sub(lambda m: subst[m.group(1)], stmts)
+                    val = pat_re.sub(lambda m: subst[m.group(1)], val)
+                repl = '{ ' + bind + stmts + ' ' + (val if val.strip() else '()') + ' }'
+                end = st[cc + 1][3]
         else:
             repl = '{ ' + bind + body + ' }'
             end = st[cc][3]
@@ -1301,6 +1400,14 @@ def build_fn(fs, repo, effectful, table_keys, canary=False):
                 # something fallible does not lose the frame for lack of an invariant (a proof failure, not a violation).
                 for c in (frame_conjuncts(fs.ensures) if os.environ.get('VERIF_NO_AUTOFRAME') != '1' else []):
                     lp.invariants = list(lp.invariants) + [specmod.Clause(list(c[0]), c[1], 'invariant', 'auto-frame-loop')]
+    # auto-hoist: a non-`mut` local bound before a loop to a pure place expression over immutable roots (`let bs = self.config.block_size;`)
+    # equals that expression at every loop head.  Loops are verified in isolation, so without this a harmless hoisting of a field read out
+    # of a loop loses every fact the contract states about the field (a proof failure on property-respecting code, not a violation).
+    if not fs.external:
+        try:
+            _hoist_invariants(fs, st, log)
+        except Exception as e:   # never let a convenience break the run
+            log.append('auto-hoist skipped: %s' % e)
     ins = []   # (offset, seq, text, origin)
     seq = [0]
 
